@@ -158,6 +158,7 @@ func checkTensor(label string, t T, dims []int, want []float64) {
 		return
 	}
 	vrt.Assert(label+": Shape()", sameDims(t.Shape(), dims))
+	vrt.Assert(label+": NElems is the product of Shape", t.NElems() == numel(dims))
 	f := vrt.Flat(t)
 	if len(f) != len(want) {
 		vrt.Assert(label+": element count", false)
